@@ -73,10 +73,62 @@ PROPS = {
     },
 }
 
-# --- temporary engine-only entries (theorem modules follow)
-for _p, _e in {"C01": ["decblk", "decobj"], "C02": ["decblk", "overhead"], "C04": ["cm", "enc", "params"], "C05": ["partition", "object"],
-               "C06": ["inter", "plan"], "C08": ["decblk", "decobj"], "C18": ["repair", "object"], "C14": ["genparams"], "C15": ["params"]}.items():
-    PROPS.setdefault(_p, {"thm_modules": [], "engines": [(e, "release") for e in _e]})
-PROPS.setdefault("C03", {"thm_modules": [], "engines": [("overhead", "release")], "level": "other"})
-PROPS.setdefault("C16", {"thm_modules": [], "engines": [("matrices", "release"), ("matrices", "debug")]})
-PROPS.setdefault("C07", {"thm_modules": [], "engines": [("configs", "release"), ("configs", "debug")], "nostd_workload": True})
+
+SOLVER = "the Rust five-phase solver itself is not modelled: every decoder/encoder theorem is for an arbitrary solver meeting SolverSpec; that the Rust solver meets it is established by correspondence against the checked Gauss-Jordan oracle (solved verdicts re-verified row by row, singular verdicts carry a verified kernel vector)"
+INVERT = "that A(K') is invertible for each of the 477 K' (consistency of the encoder's own system) is an explicit hypothesis of the object-level theorems; it is evaluated for all 477 K' by the `inter` engine, not by the kernel"
+
+PROPS.update({
+    "C01": {
+        "thm_modules": ["Rq.Thm.C01", "Rq.Thm.C02"],
+        "engines": [("decblk", "release"), ("decblk", "debug"), ("decobj", "release"), ("decobj", "debug")],
+        "modelled": [SOLVER],
+        "assumptions": [INVERT, "packets are genuine packets of one object (an erasure code makes no promise on corrupted payloads)"],
+    },
+    "C02": {
+        "thm_modules": ["Rq.Thm.C02"],
+        "engines": [("decblk", "release"), ("decblk", "debug"), ("overhead", "release")],
+        "modelled": [SOLVER],
+        "assumptions": ["the counter generator_too_weak_singular_sets is raised when fewer than 10 certified singular sets were seen in a run"],
+    },
+    "C08": {
+        "thm_modules": ["Rq.Thm.C08", "Rq.Thm.C02"],
+        "engines": [("decblk", "release"), ("decobj", "release"), ("decobj", "debug")],
+        "modelled": [SOLVER, "#[derive(Clone)] copies the whole state (the model is a value; cloned decoders are compared by the correspondence run)"],
+        "assumptions": ["packet sets are sets of genuine packets of one object"],
+    },
+    "C04": {
+        "thm_modules": ["Rq.Thm.C04", "Rq.Thm.Tables", "Rq.Thm.C15"],
+        "engines": [("cm", "release"), ("cm", "debug"), ("enc", "release"), ("params", "release"), ("tables", "release")],
+        "modelled": [SOLVER],
+        "assumptions": [RFC_TABLES, INVERT, "the Spec (entry-wise matrix, MT x GAMMA as a naive sum, Enc/Tuple/Rand/Deg) is written from RFC 6330 5.3; no other RaptorQ implementation is available offline to cross-check it"],
+    },
+    "C06": {
+        "thm_modules": ["Rq.Thm.C06", "Rq.Thm.C06b"],
+        "engines": [("inter", "release"), ("plan", "release"), ("plan", "debug")],
+        "modelled": [SOLVER],
+        "assumptions": [INVERT, "plan certificates (identity-block replay) are evaluated by the compiled model driver for K <= 130 (quick) / 400 (thorough): compiled Lean evaluation, not a kernel proof; all 477 K' are covered by checking Rust's intermediate symbols against every row of the Spec system"],
+    },
+    "C03": {
+        "thm_modules": ["Rq.Thm.C02"],
+        "engines": [("overhead", "release")],
+        "level": "other",
+        "explanation": "What is proved: the decoder fails exactly when the RFC 6330 constraint matrix of the received set is rank deficient (C02.attempt_iff, few_rows_not_determined), so its failure probability over random (K+h)-subsets equals that of the RFC code. What is not provable: the numerical bounds (below 1 percent, 0.01 percent, 0.001 percent), an empirical property of the code design; supported by a seeded Monte-Carlo run in which every failure is certified singular by the oracle, with an exact Clopper-Pearson lower bound at confidence 1-1e-9 as the only alarm.",
+        "modelled": [SOLVER],
+        "assumptions": ["the advertised probabilities themselves are assumed, not proved"],
+    },
+})
+PROPS.update({
+    "C16": {
+        "thm_modules": ["Rq.Thm.C16"],
+        "engines": [("matrices", "release"), ("matrices", "debug")],
+        "modelled": ["Dense: refinement to the bit array proved for every operation and every admissible sequence", "Sparse: code-shaped Lean model (Model/Sparse.lean) tied to the Rust sparse matrix and to the same bit array by the correspondence run; its refinement proof is staged (Thm/C16s.lean when present)"],
+        "assumptions": ["preconditions = the explicit assert!/unimplemented! of the code, the crate's debug_indexed_column_valid rule, and 'undefined left of start_col'; tracked on a shadow array by the generator", "count_ones(row, w, w) (empty range at the very end) is outside the claimed interface"],
+    },
+    "C07": {
+        "thm_modules": ["Rq.Thm.C07"],
+        "engines": [("configs", "release"), ("configs", "debug")],
+        "nostd_workload": True,
+        "modelled": [SOLVER, "optimised vs debug-assertion code generation, std vs no_std, and the release-only errata-11 column skipping are not modelled: covered by the correspondence run only (partial)"],
+        "assumptions": ["four builds (std/no_std x checked/unchecked) run one public-API workload and are compared textually; inside the std harness: dispatch ceiling x sparse threshold x plan mode grid against the canonical result, which is tied to the model"],
+    },
+})
